@@ -28,6 +28,12 @@ Plan gen_c05(uint64_t seed, int tier)
   p.cfg["nsinks"] = nsinks;
   p.cfg["nloggers"] = nloggers;
   int64_t clock = r.chance(1, 3) ? 1 : 0; // all loggers of a run share the clock source
+  if (Rng(seed ^ 0xc10c).chance(1, 7))
+  {
+    // user clock source: the backend neither converts nor holds back such timestamps, so only "the statement carries the
+    // value the clock returned at the start of the call" is demanded in these runs
+    clock = 2;
+  }
   for (int i = 0; i < nloggers; ++i)
   {
     p.cfg["logger" + std::to_string(i) + "_sinks"] = r.range(1, (1 << nsinks) - 1);
@@ -156,6 +162,7 @@ Verdict judge_c05(Plan const& p, History const& h, RunInfoLite const& ri)
   int64_t const grace_ns = p.get("grace_us", 1) * 1000;
   int64_t const epoch = 1700000000ll * 1000000000ll;
   bool const tsc = p.get("logger0_clock", 0) == 1;
+  bool const user_clock = p.get("logger0_clock", 0) == 2;
   int64_t const tol = tsc ? 3400 : 0; // RdtscClock resync window, see C06
   DeliveryRules rules;
   rules.expect = [&m](Issued const& is, int sink) -> int
@@ -174,7 +181,7 @@ Verdict judge_c05(Plan const& p, History const& h, RunInfoLite const& ri)
   }
   int64_t running_max = 0;
   int64_t max_id = -1;
-  uint64_t timely = 0, late = 0, excused = 0, excused_tsc = 0, checked = 0, ts_mismatch = 0;
+  uint64_t timely = 0, late = 0, excused = 0, excused_tsc = 0, checked = 0, ts_mismatch = 0, user_clock_writes = 0;
   for (auto const& w : m.all_writes)
   {
     auto it = m.issued.find(w.id);
@@ -206,6 +213,12 @@ Verdict judge_c05(Plan const& p, History const& h, RunInfoLite const& ri)
       return violation("timestamp_not_taken_during_the_call",
                        "TSC id " + std::to_string(w.id) + " carries timestamp " + std::to_string(ts_v) + " but the call ran from " +
                          std::to_string(is.invoke_vt) + " to " + std::to_string(is.return_vt) + " (virtual ns)");
+    }
+    if (user_clock)
+    {
+      ++checked;
+      ++user_clock_writes;
+      continue;
     }
     bool const is_late = static_cast<int64_t>(is.return_vt) - ts_v > grace_ns;
     ++checked;
@@ -261,6 +274,7 @@ Verdict judge_c05(Plan const& p, History const& h, RunInfoLite const& ri)
   }
   v.nontrivial = threads.size() >= 2 && checked >= 5 && ri.preemptions >= 1;
   v.probes["writes_checked"] = checked;
+  v.probes["user_clock_writes_checked_for_the_exact_timestamp"] = user_clock_writes;
   backlog_probes(m, p, v);
   v.probes["timely_statement_writes"] = timely;
   v.probes["late_statement_writes"] = late;
